@@ -78,8 +78,10 @@ def policies(tier):
     # exact arithmetic (nlsat): the counterexamples of this small harness replay
     out = []
     for p in loop.POLICIES:
-        N = 2 if (tier == "quick" or p in loop.HEAVY) else 3
-        out.append(dict(module="C16", fn="h_policy", shape=dict(policy=p, N=N), opts=dict(nra=True, timeout_ms=30000)))
+        out.append(dict(module="C16", fn="h_policy", shape=dict(policy=p, N=2), opts=dict(nra=True, timeout_ms=30000)))
+        if tier != "quick":
+            # longer sequences with uninterpreted products (N=3 in exact arithmetic ran into solver timeouts)
+            out.append(dict(module="C16", fn="h_policy", shape=dict(policy=p, N=4), opts=dict(mulmode="uf", timeout_ms=20000)))
     return out
 
 
